@@ -1,9 +1,11 @@
 (* C16 -- configuration names select exactly the documented behaviour.
-   Spec.Readme = the README tables (typed in by hand once); Model.Config = what the current source does
+   Spec.Readme = the README tables, typed in by hand and PROVED equal to Generated.Readme = /repo/README.md as it is now
+   (regenerated on every run, tie A; last section of this file); Model.Config = what the current source does
    (names and arm lists regenerated from /repo on every run, tie A; behaviour of the serde types and of the
    key-derivation functions compared with the real code by the harness component `config`, tie B). *)
 From Coq Require Import String Ascii List Bool NArith.
-From Octo Require Import Base.Bytes Crypto.Prims Generated.Tables Generated.ConfigTables Model.Config Spec.Readme Proofs.ConfigFacts.
+From Octo Require Import Base.Bytes Crypto.Prims Generated.Tables Generated.ConfigTables Model.Config Spec.Readme Proofs.ConfigFacts
+  Generated.Readme Proofs.ReadmeFacts.
 Import ListNotations.
 Open Scope string_scope.
 Open Scope list_scope.
@@ -157,6 +159,89 @@ Theorem C16_credential_format_exact : forall (P : prims) (b64 : string -> option
     end.
 Proof. exact credential_format_exact. Qed.
 
+(* ---- the documented side is the README as it is now ----------------------------------------------------------- *)
+(* Generated.Readme = /repo/README.md's tables, option lists and notes as plain data, regenerated on every run (tie A).
+   The hand transcription Spec.Readme used by every theorem above is exactly that text under the reading spelled out in
+   Proofs/ReadmeFacts.v (readme_column_protocol, readme_transport_name, readme_local_peer, md_marks): the README table of
+   ciphers + the one alias of the repository's configuration examples; the `protocol` line; the `mode` lists and their
+   defaults; the Transport table, whose last row the README spells `ucp` and which is read as `udp` (stated on its own). *)
+Theorem C16_generated_readme_ciphers_match_spec :
+  md_cipher_columns = ["Shadowsocks"; "VMess"]
+  /\ md_cipher_legend = [("C", "client"); ("S", "server")]
+  (* the README table is readme_ciphers without the alias: row for row, in the README's order, same two columns *)
+  /\ md_cipher_rows = map md_cipher_row_of (filter not_alias readme_ciphers)
+  /\ length readme_ciphers = S (length md_cipher_rows)
+  (* the alias is in no README row; in readme_ciphers it is the chacha20-poly1305 entry under a second name *)
+  /\ ~ In readme_config_example_alias (map mdc_name md_cipher_rows)
+  /\ (forall d, In d readme_ciphers -> dc_name d = readme_config_example_alias ->
+        exists d0, In d0 readme_ciphers /\ dc_name d0 = "chacha20-poly1305" /\ In (md_cipher_row_of d0) md_cipher_rows
+                   /\ d = dc_with_name readme_config_example_alias d0)
+  (* every README row is the readme_ciphers entry of that name (there is one: the names are distinct), same columns *)
+  /\ (forall r, In r md_cipher_rows -> exists d, In d readme_ciphers /\ dc_name d = mdc_name r /\ r = md_cipher_row_of d)
+  (* and every other readme_ciphers entry is a README row *)
+  /\ (forall d, In d readme_ciphers -> dc_name d <> readme_config_example_alias -> In (md_cipher_row_of d) md_cipher_rows)
+  /\ NoDup readme_cipher_names.
+Proof. exact generated_readme_ciphers_match_spec. Qed.
+Theorem C16_generated_readme_protocols_match_spec :
+  md_protocol_options = readme_protocol_names
+  /\ (forall n, In n md_protocol_options <-> exists p, In (n, p) readme_protocols)
+  (* the protocol columns of the Transport table are these protocols, in this order; the Ciphers table has the first two *)
+  /\ map readme_column_protocol md_transport_columns = map (fun n => assoc n readme_protocols) md_protocol_options
+  /\ map readme_column_protocol md_transport_columns = map Some all_protocols
+  /\ map readme_column_protocol md_cipher_columns = [Some PShadowsocks; Some PVMess].
+Proof. exact generated_readme_protocols_match_spec. Qed.
+Theorem C16_generated_readme_modes_match_spec :
+  map mdm_who md_mode_items = ["client"; "shadowsocks server"; "shadowsocks quic server"]
+  (* 1. client: the option names, in the README's order, are the client modes; "(default)" marks exactly readme_default_mode *)
+  /\ (exists i, md_mode_item_of "client" = Some i
+        /\ md_option_names i = readme_client_modes
+        /\ md_option_names i = map fst (filter is_client_mode readme_modes)
+        /\ md_defaults i = [readme_default_mode])
+  (* 2. shadowsocks server: the option names are the server modes = every documented mode name *)
+  /\ (exists i, md_mode_item_of "shadowsocks server" = Some i
+        /\ md_option_names i = readme_server_modes
+        /\ (forall s, In s (md_option_names i) <-> In s readme_mode_names)
+        /\ NoDup (md_option_names i) /\ length (md_option_names i) = length readme_mode_names
+        /\ md_defaults i = [readme_default_mode])
+  (* 3. shadowsocks quic server: a remark, no further option *)
+  /\ (exists i, md_mode_item_of "shadowsocks quic server" = Some i /\ mdm_options i = [])
+  (* no mode name is documented anywhere else, and none of readme_modes is undocumented *)
+  /\ (forall s, In s readme_mode_names <-> exists i, In i md_mode_items /\ In s (md_option_names i)).
+Proof. exact generated_readme_modes_match_spec. Qed.
+Theorem C16_readme_ucp_row_is_udp_quic :
+  filter (fun r => negb (mdt_local r =? "tcp") && negb (mdt_local r =? "udp")) md_transport_rows = [md_ucp_row]
+  /\ md_transport_rows = removelast md_transport_rows ++ [md_ucp_row]
+  /\ Forall (fun r => mdt_local r = "tcp" \/ mdt_local r = "udp") (removelast md_transport_rows)
+  /\ readme_local_peer (mdt_local md_ucp_row) = Some LocalUdp
+  /\ readme_transport_name (mdt_peer md_ucp_row) = Some TQuic
+  /\ mdt_ticks md_ucp_row = map (fun p => readme_udp_transport p TQuic) all_protocols
+  /\ ~ In ("udp", "quic") (map (fun r => (mdt_local r, mdt_peer r)) md_transport_rows).
+Proof. exact readme_ucp_row_is_udp_quic. Qed.
+Theorem C16_generated_readme_transports_match_spec :
+  md_transport_key_columns = ["Local-Peer"; "Client-Server"]
+  /\ map readme_column_protocol md_transport_columns = map Some all_protocols
+  (* every row of the README table is understood and carries exactly the ticks of readme_tcp_transport / readme_udp_transport *)
+  /\ (forall r, In r md_transport_rows ->
+        exists l t, readme_local_peer (mdt_local r) = Some l /\ readme_transport_name (mdt_peer r) = Some t
+                    /\ mdt_ticks r = map (fun p => readme_transport l p t) all_protocols)
+  (* vice versa: whatever readme_tcp_transport / readme_udp_transport allow is a row of the README table *)
+  /\ (forall l p t, readme_transport l p t = true ->
+        exists r, In r md_transport_rows /\ readme_local_peer (mdt_local r) = Some l /\ readme_transport_name (mdt_peer r) = Some t)
+  (* one row per (Local-Peer, Client-Server) pair *)
+  /\ NoDup (map (fun r => (readme_local_peer (mdt_local r), readme_transport_name (mdt_peer r))) md_transport_rows)
+  (* the only cell text that needed a reading beyond its spelling *)
+  /\ (forall r, In r md_transport_rows -> mdt_local r = "tcp" \/ mdt_local r = "udp" \/ r = md_ucp_row).
+Proof. exact generated_readme_transports_match_spec. Qed.
+Theorem C16_generated_readme_sections_match_spec :
+  map mdn_key (filter md_optional md_config_notes) = ["mode"; "ssl"; "ws"; "quic"]
+  /\ map (fun n => (mdn_key n, map fst (mdn_subkeys n))) (filter md_has_subkeys md_config_notes)
+     = [("ssl", ["certificateFile"; "serverName"]); ("ws", ["header"; "path"]); ("quic", ["certificateFile"; "keyFile"; "serverName"])]
+  /\ (forall ssl ws quic, exists r, In r md_transport_rows /\ readme_local_peer (mdt_local r) = Some LocalTcp
+        /\ readme_transport_name (mdt_peer r) = Some (readme_sections_transport ssl ws quic))
+  /\ (forall r, In r md_transport_rows -> readme_local_peer (mdt_local r) = Some LocalTcp ->
+        exists ssl ws quic, readme_transport_name (mdt_peer r) = Some (readme_sections_transport ssl ws quic)).
+Proof. exact generated_readme_sections_match_spec. Qed.
+
 (* ---- documentation gap (F-16h, kept): a VMess / Trojan server ignores `mode` altogether (the README documents `mode`
    for the shadowsocks server only): mode "udp" still opens the TCP listener and no UDP socket ---------------------- *)
 Example C16_FINDING_mode_ignored_by_vmess_trojan :
@@ -235,6 +320,12 @@ Check @C16_wrong_key_length_rejected.
 Check @C16_key_2022_exact.
 Check @C16_user_key_exact.
 Check @C16_credential_format_exact.
+Check @C16_generated_readme_ciphers_match_spec.
+Check @C16_generated_readme_protocols_match_spec.
+Check @C16_generated_readme_modes_match_spec.
+Check @C16_readme_ucp_row_is_udp_quic.
+Check @C16_generated_readme_transports_match_spec.
+Check @C16_generated_readme_sections_match_spec.
 Print Assumptions C16_names_complete_and_exact.
 Print Assumptions C16_tables_closed.
 Print Assumptions C16_unknown_names_rejected.
@@ -256,3 +347,9 @@ Print Assumptions C16_wrong_key_length_rejected.
 Print Assumptions C16_key_2022_exact.
 Print Assumptions C16_user_key_exact.
 Print Assumptions C16_credential_format_exact.
+Print Assumptions C16_generated_readme_ciphers_match_spec.
+Print Assumptions C16_generated_readme_protocols_match_spec.
+Print Assumptions C16_generated_readme_modes_match_spec.
+Print Assumptions C16_readme_ucp_row_is_udp_quic.
+Print Assumptions C16_generated_readme_transports_match_spec.
+Print Assumptions C16_generated_readme_sections_match_spec.
